@@ -1,6 +1,6 @@
 CONSTANTS MaxAtoms = 5
 MaxOps = 0
-AtomSet = {1, 2, 3, 4, 5, 9, 10, 12, 13, 17, 19, 22, 23, 26, 27, 28}
+AtomSet = {1, 2, 3, 4, 5, 9, 10, 12, 13, 17, 19, 22, 23, 26, 27, 28, 38}
 WithMgr = FALSE
 SPECIFICATION Spec
 CONSTRAINT Emit
